@@ -1,7 +1,7 @@
 (** C17 (stage A): operand reflection agrees with the parser tables on every
     enumerant and every single bit; parser tables equal the reference. *)
 From RV Require Import Model.Base Model.Spirv.
-From RV Require Import Gen.SpirvData Gen.ParseData Gen.DumpOperand Inst.C17_inst Inst.Linked.
+From RV Require Import Gen.SpirvData Gen.ParseData Gen.DumpOperand Inst.C17_inst Inst.Linked Proofs.OperandReflectFacts.
 From RV Require Gen.RefParams.
 
 Theorem C17_enumerants_report_parser_parameters : reflect_rows_ok reflect_enum_params = true.
@@ -17,6 +17,100 @@ Theorem C17_parser_tables_are_reference :
   ss_list_eqb operand_variants RefParams.operand_variants = true.
 Proof. exact params_match_ref. Qed.
 
+(** ---- the reflection functions translated from dr/autogen_operand.rs (T-src), for EVERY value ---- *)
+From Coq Require Import Permutation.
+From RV Require Import Model.Grammar Model.Inst Model.Parser Model.Link Model.OperandReflect.
+From RV Require Import Gen.TableData Gen.OperandReflectData.
+From RV Require Gen.RefOperandReflect.
+
+Theorem C17_reflection_functions_translated_completely :
+  opreflect_translation_failures = [] /\
+  option_map (map_items (canon_name capability_enum)) (link_kinds enums flags req_caps_raw) = Some caps_tbl /\
+  link_kinds enums flags req_exts_raw = Some exts_tbl /\
+  link_kinds enums flags add_ops_raw = Some params_tbl.
+Proof. exact (conj opreflect_translated_completely reflection_tables_link). Qed.
+
+(** for every kind index and every value (any mask bits, any number): the kinds parse_operand
+    reads after the value are the kinds additional_operands reports - the same multiset for a
+    mask, the same sequence for an enumerant; other kinds report and read nothing *)
+Theorem C17_additional_operands_are_what_the_parser_consumes :
+  forall k v,
+    Permutation (map (kind_of_slot kind_names) (params_consumed arms_linked k v))
+                (map item_kind (add_items params_tbl (kind_name kind_names k) v))
+    /\ (is_mask_kind params_tbl (kind_name kind_names k) = false ->
+        map (kind_of_slot kind_names) (params_consumed arms_linked k v)
+        = map item_kind (add_items params_tbl (kind_name kind_names k) v)).
+Proof. exact additional_operands_are_what_the_parser_consumes. Qed.
+
+(** a mask value reports, as a multiset, what each of its set declared bits reports alone *)
+Theorem C17_mask_parameters_are_union_of_set_bits :
+  forall r, In r params_tbl -> lk_mask r = true ->
+  forall v, Permutation (mask_params (lk_rows r) v)
+                        (flat_map (mask_params (lk_rows r)) (filter (contains v) (declared_bits (lk_rows r)))).
+Proof. exact mask_parameters_are_union_of_set_bits. Qed.
+
+(** required capabilities / extensions of `Operand::K(v)`, every kind name K and every value v:
+    mask: exactly (as a set) what the reference lists for the set single bits of v;
+    enumerant: the reference row (same sequence); any other kind: nothing *)
+Theorem C17_required_capabilities_are_the_reference :
+  forall k v, req_spec (ref_kind_of ref_caps_masks ref_caps_enums k) v (req_items caps_tbl k v).
+Proof. exact required_capabilities_are_the_reference. Qed.
+
+Theorem C17_required_extensions_are_the_reference :
+  forall k v, req_spec (ref_kind_of ref_exts_masks ref_exts_enums k) v (req_items exts_tbl k v).
+Proof. exact required_extensions_are_the_reference. Qed.
+
+Theorem C17_reference_tables_are_the_snapshot :
+  link_ref enums flags true pick_caps RefOperandReflect.ref_masks = Some ref_caps_masks /\
+  link_ref enums flags false pick_caps RefOperandReflect.ref_enums = Some ref_caps_enums /\
+  link_ref enums flags true pick_exts RefOperandReflect.ref_masks = Some ref_exts_masks /\
+  link_ref enums flags false pick_exts RefOperandReflect.ref_enums = Some ref_exts_enums.
+Proof. exact reference_tables_link. Qed.
+
+(** the translated additional_operands returns what the compiled one returns on every
+    enumerant and every declared mask constant (T-dump against T-src) *)
+Theorem C17_translated_reflection_matches_compiled :
+  forallb (fun t => forallb (dump_row_ok (fst t) false) (snd t)) reflect_enum_params
+  && forallb (fun t => forallb (dump_row_ok (fst t) true) (snd t)) reflect_mask_params = true.
+Proof. exact additional_operands_dump_agrees. Qed.
+
+(** id_ref_any / id_ref_any_mut list exactly IdRef, IdScope, IdMemorySemantics *)
+Theorem C17_id_kinds :
+  omap (link_mk kind_names) id_ref_any_variants = Some [MkIdRef; MkIdScope; MkIdMemSem] /\
+  omap (link_mk kind_names) id_ref_any_mut_variants = Some [MkIdRef; MkIdScope; MkIdMemSem] /\
+  (forall o v, id_of o = Some v <-> (o = OIdRef v \/ o = OIdScope v \/ o = OIdMemSem v)) /\
+  (forall m w, id_of (make_operand m w) = if is_id_mk m then Some w else None).
+Proof.
+  exact (conj (proj1 id_variants_are_the_three) (conj (proj2 id_variants_are_the_three)
+          (conj OperandReflectFacts.id_of_iff OperandReflectFacts.id_of_make))).
+Qed.
+
+(** rewriting the id through id_ref_any_mut: the operand's word becomes the new id, operands
+    without an id are unchanged; in the assembled instruction exactly that word changes *)
+Theorem C17_rewrite_id_word :
+  forall o w, asm_operand (set_id o w) = match id_of o with Some _ => [w] | None => asm_operand o end.
+Proof. exact OperandReflectFacts.rewrite_id_word. Qed.
+
+Theorem C17_rewrite_id_changes_one_word :
+  forall opc rt rid pre o post v w,
+  id_of o = Some v ->
+  let i  := {| i_opcode := opc; i_rtype := rt; i_rid := rid; i_ops := pre ++ o :: post |} in
+  let i' := {| i_opcode := opc; i_rtype := rt; i_rid := rid; i_ops := pre ++ set_id o w :: post |} in
+  let before := oword rt ++ oword rid ++ flat_map asm_operand pre in
+  let after := flat_map asm_operand post in
+  exists h, asm_inst i = h :: before ++ [v] ++ after /\ asm_inst i' = h :: before ++ [w] ++ after.
+Proof. exact OperandReflectFacts.rewrite_id_changes_one_word. Qed.
+
 Print Assumptions C17_enumerants_report_parser_parameters.
 Print Assumptions C17_mask_bits_report_parser_parameters.
 Print Assumptions C17_parser_tables_are_reference.
+Print Assumptions C17_reflection_functions_translated_completely.
+Print Assumptions C17_additional_operands_are_what_the_parser_consumes.
+Print Assumptions C17_mask_parameters_are_union_of_set_bits.
+Print Assumptions C17_required_capabilities_are_the_reference.
+Print Assumptions C17_required_extensions_are_the_reference.
+Print Assumptions C17_reference_tables_are_the_snapshot.
+Print Assumptions C17_translated_reflection_matches_compiled.
+Print Assumptions C17_id_kinds.
+Print Assumptions C17_rewrite_id_word.
+Print Assumptions C17_rewrite_id_changes_one_word.
